@@ -36,10 +36,14 @@ RULE = ('state = deep bit-exact fingerprint of a pool of 26 regions (every class
         'meta/visual), query coordinates, images, a WCS, a Regions list, input tables/texts/files and of 25 module-level '
         'tables/iterators; events = the operations listed in OPS; closure of the state graph, all ordered pairs (and '
         'triples in the thorough tier) of operations with result comparison against the initial-state result, and '
-        'fresh-interpreter runs per hash seed. A history is non-trivial when its last operation returns a non-empty '
+        'fresh-interpreter runs per hash seed; parser texts: all histories up to depth 3 (thorough: 4) over an alphabet of 15 DS9 / CRTF '
+        'texts (well-formed, with members skipped with a warning, raising), each history in a child forked from a process that has '
+        'not parsed anything, every step compared (regions or exception, and warnings) with the same text parsed first in a fresh '
+        'interpreter. A history is non-trivial when its last operation returns a non-empty '
         'result (region, array, text, table or file) that is compared')
-BOUNDS = {'quick': 'closure + all ordered pairs of operations + 4 hash seeds (one fresh interpreter per seed, every operation on a fresh pool)',
-          'thorough': 'closure + all ordered pairs + all ordered triples over the 26 I/O, conversion, copy and artist operations + every (operation, hash seed) in its own fresh interpreter'}
+BOUNDS = {'quick': 'closure + all ordered pairs of operations + 4 hash seeds (one fresh interpreter per seed, every operation on a fresh pool) + '
+                   'all 3615 parser-text histories of length <= 3',
+          'thorough': 'closure + all ordered pairs + all ordered triples over the 26 I/O, conversion, copy and artist operations + every (operation, hash seed) in its own fresh interpreter + all 54240 parser-text histories of length <= 4'}
 ASSUMPTIONS = ['the fingerprint covers every field reachable through the public attributes of the pool objects and the '
                'module-level tables named in the property anchors; the pair/triple result comparison exists to catch state it could miss',
                'astropy/matplotlib internals (caches of SkyCoord, WCS objects) are not part of the compared state, except WCS header text']
@@ -374,6 +378,141 @@ def check_history(res, hist):
     res.nontriv(('hist', tuple(hist)))
 
 
+# ------------------------------------------------------------- parser texts --
+# "parsing a text gives the same regions whatever was parsed before": an alphabet of texts of both text formats --
+# well-formed ones, ones with members that are skipped with a warning (invalid parameter, unsupported shape or frame),
+# ones that raise -- and ALL histories up to the depth of the tier over it.  Every history runs in a child forked from
+# a worker that has never parsed anything, so a violation is due to that history alone and replays exactly.
+PARSE_TEXTS = {
+    'ds9:good': ('ds9', DS9_TEXT),
+    'ds9:sexagesimal_polygons': ('ds9', 'fk5\npolygon(10:00:00.0,+20:00:00.0,10:00:10.0,+20:00:00.0,10:00:05.0,+20:05:00.0)\n'
+                                        'icrs\npolygon(1:02:03,4:05:06,1:02:09,4:05:06,1:02:06,4:09:00) # color=red\n'
+                                        'fk4\npolygon(12:00:00,-45:00:00,12:00:30,-45:00:00,12:00:15,-44:50:00)\n'),
+    'ds9:invalid_parameter': ('ds9', 'fk5\npolygon(10,20,20p,30,40,50)\ncircle(1,2,3")\ngalactic\npolygon(10,20,30,40x,50,60)\nellipse(1,2,3",q,0)\n'),
+    'ds9:odd_polygon': ('ds9', 'image\ncircle(1,2,3)\npolygon(1,2,3,4,5)\ncircle(4,5,6)\n'),
+    'ds9:alternate_wcs': ('ds9', 'fk5\ncircle(10,20,3")\nwcsa\ncircle(1,2,3)\nbox(1,2,3,4,0)\nwcsq;point(1,2)\nwcs\ncircle(7,8,9)\nfk5\ncircle(11,21,3")\n'),
+    'ds9:unsupported': ('ds9', 'physical\ncircle(1,2,3)\nimage\nvector(1,2,3,4)\nruler(1,2,3,4)\npanda(1,2,0,360,4,3,6,2)\ncircle(4,5,6)\n'
+                               'detector;box(1,2,3,4,5)\nimage;box(1,2,3,4,5)\n'),
+    'ds9:composite': ('ds9', 'image\n# composite(5,5,0) || composite=1 color=red width=4\ncircle(1,2,3) ||\nbox(4,5,2,2,0) ||\npoint(3,3)\ncircle(9,9,1)\n'),
+    'ds9:global': ('ds9', 'global color=yellow width=3 select=0 font="times 14 bold italic" dash=1\nimage;circle(1,2,3);-ellipse(4,5,3,2,10) # text={x}\n'),
+    'ds9:no_global': ('ds9', 'image\ncircle(1,2,3)\npoint(7,8)\n# text(3,4) text={plain}\n'),
+    'ds9:empty': ('ds9', '# Region file format: DS9\n'),
+    'crtf:good': ('crtf', CRTF_TEXT),
+    'crtf:global': ('crtf', '#CRTFv0\nglobal coord=GALACTIC, color=red, linewidth=3, symsize=2\ncircle[[120.0deg, -5.0deg], 10.0arcsec]\n'
+                            'symbol[[120.1deg, -5.1deg], D]\n'),
+    'crtf:no_global': ('crtf', '#CRTFv0\ncircle[[150.0deg, 20.0deg], 30.0arcsec]\nbox[[1pix, 2pix], [5pix, 6pix]], coord=image\n'
+                               'ellipse[[10:00:00.0, +20.00.00.0], [20arcsec, 10arcsec], 40deg]\n'),
+    'crtf:invalid': ('crtf', '#CRTFv0\ncircle[[150.0deg, 20.0deg], 30.0arcsec]\nhexagon[[1pix, 2pix], 3pix]\n'),
+    'crtf:bad_unit': ('crtf', '#CRTFv0\ncircle[[150.0deg, 20.0deg], 30.0furlong]\n'),
+}
+PARSE_OPS = list(PARSE_TEXTS)
+PARSE_DEPTH = {'quick': 3, 'thorough': 4}
+
+
+def _parse_one(name):
+    """Digest-able result of parsing one alphabet text: regions (or the exception) and the warnings."""
+    fmt, text = PARSE_TEXTS[name]
+    with warnings.catch_warnings(record=True) as w:
+        warnings.simplefilter('always')
+        try:
+            out = ['ok', FP.fp(_R().parse(str(text), format=fmt))]
+        except Exception as exc:          # noqa: BLE001
+            out = ['raise', type(exc).__name__, str(exc)[:300]]
+    out.append(sorted(str(x.message)[:200] for x in w))
+    return out
+
+
+def _parse_history_here(hist):
+    """Runs in a process that has not parsed anything yet: digests of every step + module-state change."""
+    from regions import Regions       # noqa: F401
+    m0 = jhash(FP.module_state())
+    digs = [jhash(_parse_one(h)) for h in hist]
+    m1 = FP.module_state()
+    return digs, (jhash(m1) != m0)
+
+
+def _forked(fn, *args):
+    """fn(*args) in a forked child; the JSON-able result comes back through a pipe."""
+    r, wfd = os.pipe()
+    pid = os.fork()
+    if pid == 0:
+        code = 0
+        try:
+            os.close(r)
+            with os.fdopen(wfd, 'w') as fh:
+                json.dump(fn(*args), fh)
+        except BaseException as exc:      # noqa: BLE001
+            code = 3
+            try:
+                sys.stderr.write(f'forked child failed: {type(exc).__name__}: {exc}\n')
+            except Exception:             # noqa: BLE001
+                pass
+        finally:
+            os._exit(code)
+    os.close(wfd)
+    with os.fdopen(r) as fh:
+        data = fh.read()
+    _, st = os.waitpid(pid, 0)
+    if st != 0 or not data:
+        raise RuntimeError(f'forked child for {fn.__name__}{args!r} failed (status {st})')
+    return json.loads(data)
+
+
+_PBASE = {}
+
+
+def _parse_child(names):
+    env.bootstrap()
+    print('C13PARSE ' + json.dumps({n: _parse_history_here([n])[0][0] for n in names}, sort_keys=True))
+
+
+def parse_base():
+    """Digest of every alphabet text parsed FIRST in its own fresh interpreter."""
+    need = [n for n in PARSE_OPS if n not in _PBASE]
+    if need:
+        from concurrent.futures import ThreadPoolExecutor
+
+        def one(n):
+            p = subprocess.run([sys.executable, '-c', f'import sys; sys.path.insert(0, {env.VERIF!r}); from mc.props import c13; c13._parse_child({[n]!r})'],
+                               capture_output=True, text=True, cwd=env.VERIF, env=dict(os.environ, PYTHONHASHSEED='0'), timeout=600)
+            line = [ln for ln in p.stdout.splitlines() if ln.startswith('C13PARSE ')]
+            if not line:
+                raise RuntimeError(f'fresh interpreter failed rc={p.returncode}: {p.stderr[-800:]}')
+            return json.loads(line[0][len('C13PARSE '):])[n]
+        with ThreadPoolExecutor(max_workers=min(16, len(need))) as ex:
+            for n, d in zip(need, ex.map(one, need)):
+                _PBASE[n] = d
+    return _PBASE
+
+
+def check_parse_history(res, hist):
+    base = parse_base()
+    digs, modchg = _forked(_parse_history_here, list(hist))
+    res.evaluations += 1
+    res.transitions += len(hist)
+    res.states += 1
+    case = {'op': 'parse_history', 'hist': list(hist)}
+    bad = [i for i, h in enumerate(hist) if digs[i] != base[h]]
+    if bad:
+        i = bad[0]
+        res.violation(ID, 'result_depends_on_history', {'op': 'parse_history', 'hist': list(hist[:i + 1])},
+                      f'parsing the text {hist[i]!r} after {list(hist[:i])} gives a different result (regions / exception / warnings) '
+                      f'than parsing it first in a fresh interpreter', base[hist[i]], digs[i])
+    if modchg:
+        res.violation(ID, 'input_mutated', case, f'module-level parser state differs after parsing {list(hist)}')
+    res.outcome(('parse_hist', len(hist), not bad, modchg))
+    res.nontriv(('parse_hist', tuple(hist)))
+    res.axis('parse_text_last', hist[-1])
+
+
+def parse_histories(depth):
+    import itertools
+    out = []
+    for L in range(1, depth + 1):
+        out += [list(t) for t in itertools.product(PARSE_OPS, repeat=L)]
+    return out
+
+
 # ----------------------------------------------------- fresh interpreters ----
 def _child(ops):
     """Runs in a fresh interpreter: every op on a fresh pool, prints digests."""
@@ -416,7 +555,13 @@ def check_fresh(res, ops, seed):
 # ------------------------------------------------------------------ driver --
 def shards(tier, seed):
     base_results()          # computed once in the parent (fresh interpreters), inherited by the forked workers
-    out = [{'kind': 'closure'}]
+    parse_base()
+    out = []
+    nh = len(parse_histories(PARSE_DEPTH[tier]))
+    nsh = 32 if tier == 'quick' else 128
+    for k in range(nsh):        # first: the workers that fork the parsing children have not parsed anything themselves yet
+        out.append({'kind': 'parse_histories', 'k': k, 'n': nsh, 'depth': PARSE_DEPTH[tier], 'total': nh})
+    out.append({'kind': 'closure'})
     n = len(OP_NAMES)
     for i in range(n):
         out.append({'kind': 'pairs', 'first': OP_NAMES[i]})
@@ -472,6 +617,10 @@ def run_shard(shard, tier, seed):
         for b in shard['seconds']:
             for c_ in TRIPLE_OPS:
                 check_history(res, [shard['first'], b, c_])
+    elif k == 'parse_histories':
+        for h in parse_histories(shard['depth'])[shard['k']::shard['n']]:
+            check_parse_history(res, h)
+        res.sample({'parse_history': parse_histories(shard['depth'])[shard['k']], 'alphabet': PARSE_OPS})
     elif k == 'fresh':
         check_fresh(res, shard['ops'], shard['seed'])
         res.sample({'fresh_interpreter': True, 'seed': shard['seed'], 'ops': shard['ops'][:3]})
@@ -493,6 +642,8 @@ def replay(case):
             if r2[0] != r2[1]:
                 res.violation(ID, 'result_not_repeatable', case, f'calling {hist[0]!r} twice gives two different results', r2[0], r2[1])
         check_history(res, hist)
+    elif case['op'] == 'parse_history':
+        check_parse_history(res, case['hist'])
     elif case['op'] == 'fresh':
         check_fresh(res, case['ops'], case['seed'])
     return res
